@@ -74,13 +74,14 @@ def handle (op : String) (a : Json) : P Json := do
   | "roundtrip" => pure <| resJ toJson (decodePb (encScn (← scn a)))
   | "norm" => pure <| toJson (normPb (← scn a))
   | "history" => do
-    -- one writer object, a list of calls (true = write_to_file, false = write_scenario_to_file): the file of every call
-    let x ← scn a
+    -- one writer object, a list of calls {x: the scenario's content at that call, pps: true = write_to_file, false =
+    -- write_scenario_to_file}: the file (or exception class) of every call
     let T ← tables a
-    let ops ← getList asBool a "ops"
-    pure <| Json.arr ((Wr.run Wr.new x ops).map fun m => match m.check T with
-      | some e => errJ e
-      | none => okJ (pbToJson m)).toArray
+    let calls ← (← getList pure a "calls").mapM fun c => do
+      match (fromJson? (← field c "x") : Except String Scn) with
+      | .ok x => pure (x, ← getBool c "pps")
+      | .error e => throw s!"history snapshot: {e}"
+    pure <| Json.arr ((Wr.runChecked T Wr.new calls).map (resJ pbToJson)).toArray
   | "spec_classes" => do
     -- the class each non-initial state denotes (`St.specClass`, computed from the snapshot alone), in traversal order
     let x ← scn a
